@@ -9,4 +9,5 @@ CONSTANTS
   OpsAtEnd = 2
   Interleave = TRUE
   BadArgs = TRUE
+  Iters = FALSE
 CHECK_DEADLOCK FALSE
